@@ -21,7 +21,9 @@ def make_case(rng, tg, fault):
     for i in range(n_src):
         el = rng.choice(["creator", "contact", "metadataProvider", "associatedParty"])
         t = tg.valid_tree(el, rng, maxdepth=2)
-        t[5] = [kv for kv in t[5] if kv[0] != "id"] + [["id", f"p{i}" if not (i == 1 and EMPTY_ID[0]) else ""]]
+        # ids are exact strings: surrounding whitespace and letter case are part of the id
+        spelled = rng.choice([f"p{i}"] * 6 + [f" p{i}", f"p{i} ", f"p{i}\n", f"P{i}"]) if fault in (None, "dangling") else f"p{i}"
+        t[5] = [kv for kv in t[5] if kv[0] != "id"] + [["id", spelled if not (i == 1 and EMPTY_ID[0]) else ""]]
         # a referenced element holds no references itself
         t[8] = [k for k in t[8] if k[1] != "references"] or tg.valid_tree("creator", rng, maxdepth=1)[8]
         if any(k[1] == "references" for _, k in gen.nodes_of(t)):
@@ -64,7 +66,11 @@ def make_case(rng, tg, fault):
     if fault == "dangling":
         refs = [x for _, x in gen.nodes_of(ds) if x[1] == "references"]
         if refs:
-            rng.choice(refs)[2] = rng.choice(["nope", None, ""])
+            r_ = rng.choice(refs)
+            v_ = r_[2]
+            near = [x for x in ([v_ + " ", " " + v_, v_.strip(), v_.upper(), v_.lower(), v_ + "\n"] if isinstance(v_, str) and v_ else []) if x != v_]
+            # a value that names no id, also one that differs from an existing id only by surrounding whitespace or letter case
+            r_[2] = rng.choice(["nope", None, ""] + near + near)
         else:
             ds[8].append(impl.T("contact", None, [impl.T("references", "nope")]))
     elif fault == "dup":
